@@ -76,7 +76,9 @@ static Index EIGS_compute(SVD *S, SortRule selection, Index maxit, Scalar tol)
   S->eigs_cnt = r; S->eigs_epoch++;     /* contract of compute(): return value == eigenvalues().size() == eigenvectors().cols() */
   return r;
 }
-static Mat EIGS_eigenvectors(SVD *S) { Mat M = MAT_NEW(S->op_dim, S->eigs_cnt); return M; }
+/* contract of eigenvectors(nvec) (C05): n rows, min(nvec, number of flagged pairs) columns; eigenvectors() == eigenvectors(nev) */
+static Mat EIGS_eigenvectors(SVD *S, Index nvec)
+{ __CPROVER_assert(nvec >= 0, "eigenvectors(nvec): nvec >= 0 (documented domain)"); Mat M = MAT_NEW(S->op_dim, VMIN(nvec, S->eigs_cnt)); return M; }
 '''
     enumdefs = __import__("vlib.common", fromlist=["x"]).enum_defines("Util/SelectionRule.h", "SortRule")
     base = TYPES.replace('#include "eigabs_macros.h"', __import__("vlib.eigabs", fromlist=["x"]).SKEL_MACROS) + enumdefs + stubs
@@ -169,8 +171,9 @@ static Mat EIGS_eigenvectors(SVD *S) { Mat M = MAT_NEW(S->op_dim, S->eigs_cnt); 
                          ("class invariant preserved", "S->m_evecs.cols == 0 || (S->m_evecs.rows == S->op_dim && S->evecs_epoch == S->eigs_epoch && S->m_evecs.cols == S->eigs_cnt)")],
                    frame=["S->m_evecs", "S->evecs_epoch"], real=H + ":" + nm)
         tm, R = cgen.emit(fm, nm, ret_c="Mat", self_type="SVD", self_name="S", members=members,
-                          extra_rules=[("fill", r"S->m_evecs = S->m_eigs->eigenvectors\(\);", "S->m_evecs = EIGS_eigenvectors(S); S->evecs_epoch = S->eigs_epoch;", {"max": 1}),
-                                       ("cols", r"S->m_evecs\.cols\(\)", "S->m_evecs.cols", {"max": 1}),
+                          extra_rules=[("fill", r"S->m_evecs = S->m_eigs->eigenvectors\(([^;]*)\);",
+                                        lambda m: "S->m_evecs = EIGS_eigenvectors(S, %s); S->evecs_epoch = S->eigs_epoch;" % (m.group(1).strip() or "S->eigs_nev"), {"max": 1}),
+                                       ("cols", r"S->m_evecs\.cols\(\)", "S->m_evecs.cols", {"min": 1}),
                                        ("direct", r"return S->m_evecs\.leftCols\((\w+)\);", r"NCOLS_CHECK(S->m_evecs, \1); { Mat R_ = MAT_NEW(S->m_evecs.rows, \1); return R_; }", {"max": 1}),
                                        ("product", r"return S->m_mat(\.transpose\(\))? \* \(S->m_evecs\.leftCols\((\w+)\)\.array\(\)\.rowwise\(\) / S->m_eigs->eigenvalues\(\)\.head\((\w+)\)\.transpose\(\)\.array\(\)\.sqrt\(\)\)\.matrix\(\);",
                                         lambda m: ("NCOLS_CHECK(S->m_evecs, %s); __CPROVER_assert(0 <= (%s) && (%s) <= S->eigs_cnt, @Q@Eigen block assertion: head(n) within eigenvalues()@Q@); "
